@@ -2,7 +2,7 @@
 From Coq Require Import String.
 From Coq Require Import List NArith ZArith Bool Lia.
 From Dials Require Import Base.Outcome Base.Runes Reflect.Ty Reflect.Ptrify Stack.Overlay Text.CaseConv
-  Text.ParseText Sources.Flatten Sources.FlattenSpec Sources.FlattenProofs Sources.Env Sources.EnvSpec
+  Text.ParseInt Text.ParseIntProofs Text.Split Text.ParseText Sources.Flatten Sources.FlattenSpec Sources.FlattenProofs Sources.Env Sources.EnvSpec
   Sources.EnvProofs Sources.Flags.
 Import ListNotations.
 Open Scope list_scope.
@@ -25,11 +25,11 @@ Definition flag_keys (p : pkg) (fs : fields) : fields := alias_fields (flag_alia
 Lemma flag_regs_ok p ne te fs tmpl regs :
   flag_regs p ne te fs tmpl = Ok regs ->
   exists ls, flatten (flag_cfg ne te) (flag_keys p fs) = Ok ls /\
-             regs = map (mk_reg p fs tmpl) ls /\ has_dup (map rg_name regs) = false.
+             regs = map (mk_reg p fs tmpl) ls /\ reg_errors p [] regs = None.
 Proof.
   unfold flag_regs, flag_keys. intros H. apply obind_ok in H as (ls & Hls & H).
   destruct (has_dup (map lf_name ls)); [discriminate|].
-  destruct (has_dup (map rg_name (map (mk_reg p fs tmpl) ls))) eqn:E; [discriminate|].
+  destruct (reg_errors p [] (map (mk_reg p fs tmpl) ls)) eqn:E; [discriminate|].
   inversion H; subst. eauto.
 Qed.
 
@@ -203,34 +203,28 @@ Qed.
 
 (* maps and sets: one step - the first occurrence replaces, later ones merge *)
 Theorem flag_accumulate_maps_l st text :
-  (forall kvs, simple_kvs text = Ok kvs -> has_dup_key (map fst kvs) = false ->
+  (forall kvs, map_ss_parse isp0 text = Ok kvs ->
      flag_set FkStrMap st text =
      Ok (mkFstate (VMap (fold_left (fun m kv => map_put (VStr (fst kv)) (VStr (snd kv)) m) kvs
                                    (if st_defaulted st then [] else vmap_of (st_val st)))) false)) /\
-  (forall ws, simple_csv text = Ok ws -> has_dup_key ws = false ->
+  (forall ws, string_set isp0 text = Ok ws ->
      flag_set FkStrSet st text =
      Ok (mkFstate (VMap (fold_left (fun m w => map_put (VStr w) set_unit m) ws
                                    (if st_defaulted st then [] else vmap_of (st_val st)))) false)) /\
-  (forall kvs, simple_kvs text = Ok kvs ->
+  (forall kvs, mss_parse isp0 text = Ok kvs ->
      flag_set FkStrSliceMap st text =
-     Ok (mkFstate (VMap (group_kvs kvs (if st_defaulted st then [] else vmap_of (st_val st)))) false)).
+     Ok (mkFstate (VMap (merge_mss kvs (if st_defaulted st then [] else vmap_of (st_val st)))) false)).
 Proof.
-  repeat split; intros; unfold flag_set; rewrite H; simpl; try rewrite H0; reflexivity.
+  repeat split; intros; unfold flag_set; rewrite H; reflexivity.
 Qed.
 
 (* ---- out of range ---- *)
-Lemma parse_int_range b s z : (1 <= b)%N -> parse_int b s = Ok z ->
-  (- Z.of_N (pow2 (b - 1)) <= z < Z.of_N (pow2 (b - 1)))%Z.
-Proof.
-  intros Hb H. unfold parse_int in H. destruct s as [|c0 rest]; [discriminate|].
-  apply obind_ok in H as (un & _ & H).
-  destruct (negb (N.eqb c0 45) && (pow2 (b - 1) <=? un)%N) eqn:E1; [discriminate|].
-  destruct (N.eqb c0 45 && (pow2 (b - 1) <? un)%N) eqn:E2; [discriminate|].
-  assert (Hpos : (0 < pow2 (b - 1))%N) by (unfold pow2; apply N.neq_0_lt_0, N.pow_nonzero; discriminate).
-  destruct (N.eqb c0 45); simpl in *; inversion H; subst.
-  - apply N.ltb_ge in E2. lia.
-  - apply N.leb_gt in E1. lia.
-Qed.
+(* the packages' own integer setters, at the flag's bit size (pflag: the
+   leaf's width): C15's characterisation of strconv.ParseInt - the value of
+   the literal, inside the range of that size, or an error *)
+Lemma parse_int_range b s z : good_bits b -> parse_int s b = Ok z ->
+  lit_value s = Some z /\ (- Z.of_N (2 ^ (b - 1)) <= z < Z.of_N (2 ^ (b - 1)))%Z.
+Proof. intros Hb H. now apply parse_int_spec in H. Qed.
 
 (* std package: a value outside the leaf's integer type is an error *)
 Lemma write_leaf_overflow k w nm z :
